@@ -53,9 +53,10 @@ void iolog_stop(void) { g_io.enabled = 0; }
 void iolog_reset(void) {
     free(g_io.ev); free(g_io.data); free(g_io.sh); free(g_io.ck);
     void (*cb)(const io_ev_t *) = g_io.on_event;
+    void (*bf)(void) = g_io.before_io;
     memset(&g_io, 0, sizeof(g_io));
     g_io.fd = -1;
-    g_io.on_event = cb;
+    g_io.on_event = cb; g_io.before_io = bf;
 }
 
 static void sh_reserve(size_t n) {
@@ -287,6 +288,7 @@ ssize_t __wrap_read(int fd, void *buf, size_t n) {
 
 ssize_t __wrap_write(int fd, const void *buf, size_t n) {
     if (g_io.enabled && fd == g_io.fd && fd >= 0) {
+        if (g_io.before_io) g_io.before_io();
         track_write(fd, buf, n);
     }
     return __real_write(fd, buf, n);
@@ -312,6 +314,7 @@ int __wrap_ftruncate(int fd, off_t len) {
 
 int __wrap_fsync(int fd) {
     if (g_io.enabled && fd == g_io.fd && fd >= 0) {
+        if (g_io.before_io) g_io.before_io();
         io_ev_t *e = ev_add(IO_FSYNC, fd, 0, 0);
         g_io.n_fsync++;
         if (g_io.on_event) g_io.on_event(e);
